@@ -31,11 +31,25 @@ try:
     p = subprocess.run([V + "/vx/target/release/vx", "/repo", tpl, "/tmp/sigb/vac.rs", "/tmp/sigb/vac.json"], capture_output=True, text=True)
     if p.returncode != 0:
         print("vx failed:", p.stderr); sys.exit(2)
-    p = subprocess.run(["verus", "vac.rs", "--rlimit", "100", "--triggers-mode", "silent", "--multiple-errors", "200"], capture_output=True, text=True, cwd="/tmp/sigb", timeout=1800)
-    failed = set(re.findall(r"VACUITY-PROBE (\d+)", p.stderr))
-    print("probes:", n, "failing probes:", len(failed))
-    missing = sorted(set(map(str, range(n))) - failed, key=int)
-    print("NOT failing (vacuous or unreachable end):", missing)
-    for m in re.findall(r"verification results.*", p.stderr): print(m)
+    p = subprocess.run(["verus", "vac.rs", "--rlimit", "30", "--triggers-mode", "silent", "--multiple-errors", "200", "--output-json", "--time-expanded"],
+                       capture_output=True, text=True, cwd="/tmp/sigb", timeout=3600)
+    import json
+    js = json.loads(p.stdout)
+    ok = set(); bad = set()
+    for m in js["times-ms"]["smt"]["smt-run-module-times"]:
+        for fb in m.get("function-breakdown", []):
+            (ok if fb["success"] else bad).add(fb["function"])
+    # map probes to generated functions: the probe line lies inside the fn; find the enclosing `fn name` upwards
+    gen = open("/tmp/sigb/vac.rs").read().split("\n")
+    probed = []
+    for ln, l in enumerate(gen):
+        if "VACUITY-PROBE" in l:
+            k = ln
+            while k > 0 and not re.search(r"\bfn\s+([A-Za-z0-9_]+)", gen[k]):
+                k -= 1
+            probed.append(re.search(r"\bfn\s+([A-Za-z0-9_]+)", gen[k]).group(1))
+    vacuous = [f for f in probed if any(o.endswith("::" + f) for o in ok) and not any(b.endswith("::" + f) for b in bad)]
+    print("probes:", len(probed), "verification-results:", js.get("verification-results"))
+    print("functions whose body still verifies with assert(false) at the end (VACUOUS):", vacuous)
 finally:
     os.remove(tpl)
